@@ -9,12 +9,15 @@ import (
 	"math"
 	"math/big"
 	"reflect"
+	"regexp"
 	"sort"
 	"strings"
 
 	"github.com/NethermindEth/juno/core"
 	"github.com/bits-and-blooms/bloom/v3"
 )
+
+var hexRe = regexp.MustCompile(`0x[0-9a-fA-F]+`)
 
 var (
 	tBloomPtr = reflect.TypeOf((*bloom.BloomFilter)(nil))
@@ -228,11 +231,21 @@ func fmtKey(v reflect.Value) string {
 	return v.String()
 }
 
-// normPath strips indices / map keys so that violation keys name a defect class, not a case.
+// normPath strips indices / map keys / concrete values so that a violation key names a defect class, not a case:
+// "<path>: <kind of difference>[ <tx kind>]". Errors keep their message with numbers blanked.
 func normPath(s string) string {
+	kind := ""
+	if i := strings.LastIndex(s, " <"); i >= 0 && strings.HasSuffix(s, ">") {
+		kind = " tx=" + s[i+2:len(s)-1]
+		s = s[:i]
+	}
+	path, rest := s, ""
+	if i := strings.Index(s, ": "); i >= 0 {
+		path, rest = s[:i], s[i+2:]
+	}
 	var sb strings.Builder
 	depth := 0
-	for _, r := range s {
+	for _, r := range path {
 		switch r {
 		case '[', '{':
 			if depth == 0 {
@@ -247,21 +260,36 @@ func normPath(s string) string {
 			}
 		}
 	}
-	out := sb.String()
-	if i := strings.Index(out, ": "); i >= 0 { // keep the path and the kind of difference, drop the values
-		rest := out[i+2:]
-		switch {
-		case strings.HasPrefix(rest, "want nil="):
-			rest = strings.SplitN(rest, " (", 2)[0]
-		case strings.HasPrefix(rest, "type "), strings.HasPrefix(rest, "one side"):
-		case strings.HasPrefix(rest, "len "), strings.HasPrefix(rest, "map len"):
-			rest = "length"
-		default:
-			rest = "value"
+	switch {
+	case rest == "":
+	case strings.HasPrefix(rest, "want nil="):
+		rest = strings.SplitN(rest, " (", 2)[0]
+	case strings.HasPrefix(rest, "type "), strings.HasPrefix(rest, "one side"), strings.HasPrefix(rest, "expected the documented"):
+	case strings.HasPrefix(rest, "len "), strings.HasPrefix(rest, "map len"):
+		rest = "length"
+	case strings.Contains(rest, "error") || strings.HasPrefix(rest, "panic") || strings.HasPrefix(rest, "want ErrKeyNotFound"):
+		rest = hexRe.ReplaceAllString(rest, "0xH")
+		var eb strings.Builder
+		prevDigit := false
+		for _, r := range rest {
+			if r >= '0' && r <= '9' {
+				if !prevDigit {
+					eb.WriteByte('N')
+				}
+				prevDigit = true
+				continue
+			}
+			prevDigit = false
+			eb.WriteRune(r)
 		}
-		out = out[:i] + ": " + rest
+		rest = eb.String()
+		if len(rest) > 90 {
+			rest = rest[:90]
+		}
+	default:
+		rest = "value"
 	}
-	return out
+	return sb.String() + ": " + rest + kind
 }
 
 // ---- deep copy -------------------------------------------------------------------------------------------
